@@ -23,13 +23,14 @@ func defsC17() []*ph.Def {
 				{Name: "inc", Kind: ph.Incr},
 				{Name: "define", Kind: ph.Map, Min: 1, Max: 2, Suggested: []string{"os=", "arch=", "opt=1"}},
 			},
-			ArgCompl: []string{"alpha", "build-all", "zeta"},
+			ArgCompl: []string{"alpha", "build-all", "zeta", "env=dev", "env=prod"}, // suggestions may contain `=`
 			Cmds: []*ph.CmdDef{
 				{Name: "build", Desc: "b", Opts: []ph.OptDef{{Name: "target", Kind: ph.Str, Suggested: []string{"linux", "darwin"}}, {Name: "verify", Kind: ph.Bool}},
 					Cmds: []*ph.CmdDef{{Name: "fast", Opts: []ph.OptDef{{Name: "jobs", Kind: ph.Int}}}, {Name: "full"}}, ArgCompl: []string{"file1", "file2"}},
 				{Name: "bundle", ArgFn: true},
 				{Name: "wrap", Unset: true, Unknown: 3, Opts: []ph.OptDef{{Name: "wopt", Kind: ph.Bool}}},
 				{Name: "log", Cmds: []*ph.CmdDef{{Name: "grep"}, {Name: "tail"}}},
+				{Name: "logs"}, {Name: "login", ArgCompl: []string{"user=root"}}, // a command name that is the beginning of its siblings' names
 			},
 		}}
 	}
